@@ -18,24 +18,51 @@ KEYS = ['k1', 'k2', 'k5', 'k7', 'k9']
 WRITERS = {'w-new': ['k7'], 'w-dup': ['k1', 'k7'], 'w-dup-packed': ['k5', 'k7']}
 READERS = {
     'r-bulk': ('bulk', ['k1', 'k2', 'k5', 'k9'], False), 'r-has': ('has', ['k1', 'k5', 'k7'], False),
-    'r-single': ('single', ['k2', 'k7'], False), 'r-meta': ('meta', ['k1', 'k2', 'k9'], False),
+    'r-single': ('single', ['k2'], False), 'r-meta': ('meta', ['k1', 'k2', 'k9'], False),
     'r-bulk-pinned': ('bulk', ['k1', 'k2', 'k7'], True), 'r-has-pinned': ('has', ['k1', 'k2', 'k9'], True),
 }
 
 
-def build(folder):
+def build(folder, seek=False):
     from disk_objectstore import Container  # pylint: disable=import-outside-toplevel
     cont = Container(folder)
     cont.init_container(pack_size_target=10 ** 9, loose_prefix_len=2)
     cont.add_objects_to_pack([conc.CONTENTS[k] for k in PACKED0])
+    if seek:
+        cont.add_objects_to_pack([conc.CONTENTS[SEEK_KEY]], compress=True)
     for k in LOOSE0:
         cont.add_object(conc.CONTENTS[k])
     cont.close()
 
 
+SEEK_KEY = 'k8'
+
+
+def seeker(folder, key=SEEK_KEY):
+    """A reader that seeks backwards in a packed, compressed object: the stream re-loosens it (loosen_object) and opens the
+    loose copy, retrying when a concurrent clean removed it."""
+    def body(s):
+        from disk_objectstore import Container  # pylint: disable=import-outside-toplevel
+        cont = Container(folder)
+        try:
+            s.log(e='seekstart', k=key)
+            try:
+                with cont.get_object_stream(conc.KEY[key]) as stream:
+                    stream.seek(-2, 2)
+                    tail = stream.read()
+                res = 'OK' if tail == conc.CONTENTS[key][-2:] else 'GARBAGE'
+            except Exception as exc:  # noqa pylint: disable=broad-except
+                res = type(exc).__name__
+            s.log(e='seekret', res=res)
+        finally:
+            cont.close()
+    return body
+
+
 def translate(trace):
     """Recorded events -> lines of DosConf."""
     lines = []
+    s_phase = 'start'
     seen_select = {'R': 0, 'P': 0}
     pinned_done = False
     packed = False
@@ -62,6 +89,8 @@ def translate(trace):
                 seen_select['R'] = 0
             elif ev['e'] == 'readret':
                 lines.append({'a': 'R', 't': 'ret', 'res': ev['res']})
+            elif ev['e'] == 'seekret':
+                lines.append({'a': 'S', 't': 'ret', 'r': ev['res']})
             elif ev['e'] == 'packed':
                 if pending_list:
                     pending_list = None
@@ -86,6 +115,22 @@ def translate(trace):
                 lines.append({'a': 'R', 't': 'select' if seen_select['R'] == 1 else 'refresh'})
             elif op in ('open', 'stat') and obj.startswith('loose:'):
                 lines.append({'a': 'R', 't': 'loose', 'k': obj[6:], 'found': res == 'ok'})
+        elif actor == 'S':
+            if obj != f'loose:{SEEK_KEY}':
+                continue
+            found = res == 'ok'
+            if op == 'stat' and s_phase == 'start':
+                lines.append({'a': 'S', 't': 'exists', 'found': found})
+                s_phase = 'open' if found else 'writing'
+            elif op == 'stat' and s_phase == 'writing':
+                lines.append({'a': 'S', 't': 'dest', 'found': found})
+                s_phase = 'open' if found else 'rename'
+            elif op == 'rename':
+                lines.append({'a': 'S', 't': 'rename'})
+                s_phase = 'open'
+            elif op == 'open':
+                lines.append({'a': 'S', 't': 'open', 'found': found})
+                s_phase = 'done' if found else 'start'
         elif actor == 'P':
             if op == 'listdir' and obj.startswith('dir:loose') and not packed:
                 if pending_list is None:
@@ -120,7 +165,7 @@ def translate(trace):
             elif op == 'unlink' and obj.startswith('loose:'):
                 lines.append({'a': 'P', 't': 'cunlink' if packed else 'unlink', 'k': obj[6:]})
     for line in lines:
-        for field, default in (('k', ''), ('found', False), ('todo', []), ('S', []), ('res', [])):
+        for field, default in (('k', ''), ('found', False), ('todo', []), ('S', []), ('res', []), ('r', '')):
             line.setdefault(field, default)
     del pinned_done
     return lines
@@ -131,16 +176,26 @@ def group_job(job):
     common.import_lib()
     shim.install()
     rng = common.rng('concconf', wname, rname, perpack, seed)
-    kind, wants, pinned = READERS[rname]
-    spec = [('W', lambda f: conc.writer(f, WRITERS[wname])), ('R', lambda f: conc.reader(f, kind, wants, pin=pinned)),
-            ('P', lambda f: conc.packer(f, 'NO', perpack))]
+    seek = rname == 's-seek'
+    if seek:
+        kind, wants, pinned = 'seek', [], False
+        spec = [('W', lambda f: conc.writer(f, WRITERS[wname])), ('S', seeker), ('P', lambda f: conc.packer(f, 'NO', perpack))]
+    else:
+        kind, wants, pinned = READERS[rname]
+        spec = [('W', lambda f: conc.writer(f, WRITERS[wname])), ('R', lambda f: conc.reader(f, kind, wants, pin=pinned)),
+                ('P', lambda f: conc.packer(f, 'NO', perpack))]
+    actors = [name for name, _ in spec]
     traces = []
     with common.scratch('cf') as work:
         base = os.path.join(work, 'base')
         os.makedirs(base)
-        build(os.path.join(base, 'c'))
+        build(os.path.join(base, 'c'), seek)
         for index in range(count):
-            segments = [(rng.choice(['W', 'R', 'P']), rng.randint(1, 9)) for _ in range(rng.randint(2, 12))]
+            segments = [(rng.choice(actors), rng.randint(1, 9)) for _ in range(rng.randint(2, 12))]
+            if seek and index < 16:
+                # the packer packs and cleans while the seeker is somewhere inside its re-loosening (for some of these the
+                # loose copy vanishes between the rename and the open: the retry path)
+                segments = [('S', 3 + index), ('P', 500), ('S', 500), ('W', 500)]
             if pinned:
                 # 'long-open handle': its pinning query completes before anybody else starts (BEGIN + SELECT executed)
                 segments = [('R', 3)] + segments
@@ -154,16 +209,18 @@ def group_job(job):
         q = lambda xs: ', '.join(f'"{x}"' for x in xs)  # noqa
         with open(os.path.join(work, 'MCDosConf.tla'), 'w', encoding='utf8') as handle:
             handle.write('---- MODULE MCDosConf ----\nEXTENDS DosConf\n')
-            handle.write(f'MCKeys == {{{q(KEYS)}}}\nMCInitial == {{{q(LOOSE0)}}}\nMCPacked == <<{q(PACKED0)}>>\n')
+            handle.write(f'MCKeys == {{{q(KEYS + ([SEEK_KEY] if seek else []))}}}\nMCInitial == {{{q(LOOSE0)}}}\n'
+                         f'MCPacked == <<{q(PACKED0 + ([SEEK_KEY] if seek else []))}>>\n')
             handle.write(f'MCAdds == <<{q(WRITERS[wname])}>>\nMCWants == {{{q(wants)}}}\n====\n')
         with open(os.path.join(work, 'MCDosConf.cfg'), 'w', encoding='utf8') as handle:
             handle.write('SPECIFICATION CSpec\nCONSTANTS\n  Keys <- MCKeys\n  Initial <- MCInitial\n  InitialPacked <- MCPacked\n'
                          '  WriterAdds <- MCAdds\n  ReaderWants <- MCWants\n'
-                         '  MaxRetries = 3\n  SeekKey = "none"\n'
+                         f'  MaxRetries = 3\n  SeekKey = "{SEEK_KEY if seek else "none"}"\n'
                          f'  ReaderPinned = {"TRUE" if pinned else "FALSE"}\n  PerPack = {"TRUE" if perpack else "FALSE"}\n'
                          '  AllowCrash = FALSE\n  AllowPower = FALSE\n  AllowFault = FALSE\n  UnlinkBeforeCommit = FALSE\n'
                          '  CommitBeforeFlush = FALSE\n  NoFallback = FALSE\n  SkipPackFsync = FALSE\n  RenameBeforeFsync = FALSE\n'
-                         'CONSTRAINT Track\nPOSTCONDITION Report\nINVARIANT ReadCorrect\nINVARIANT Recoverable\nCHECK_DEADLOCK FALSE\n')
+                         'CONSTRAINT Track\nPOSTCONDITION Report\nINVARIANT ReadCorrect\nINVARIANT Recoverable\nINVARIANT SeekReadCorrect\n'
+                         'CHECK_DEADLOCK FALSE\n')
         res = tlc.run('MCDosConf', 'MCDosConf.cfg', workers=1, timeout=900, cwd=work, env={'TRACE_FILE': trace_file},
                       java_opts=[f'-DTLA-Library={common.SPEC}'])
     reached = {int(t): (int(got), int(total)) for t, got, total in re.findall(r'<<"REACHED", (\d+), (\d+), (\d+)>>', res.output)}
@@ -174,7 +231,9 @@ def group_job(job):
             stuck.append({'segments': trace['segments'], 'at': got, 'line': trace['lines'][got] if got < len(trace['lines']) else None,
                           'before': trace['lines'][max(0, got - 3):got]})
     bad = res.timeout or bool(res.error_lines) or not reached
+    retries = sum(1 for trace in traces for ln in trace['lines'] if ln['a'] == 'S' and ln['t'] == 'open' and not ln['found'])
     return {'config': f'{wname}+{rname}+pp{int(perpack)}', 'traces': len(traces), 'stuck': stuck, 'states': res.distinct,
+            'seek_retries': retries,
             'generated': res.generated, 'bad': bad, 'tail': res.output[-1500:] if bad else '', 'violated': res.violated}
 
 
@@ -183,7 +242,7 @@ def check(report: common.Report, per_config=None):
     per_config = per_config or (120 if thorough else 25)
     jobs = []
     for wname in WRITERS:
-        for rname in READERS:
+        for rname in list(READERS) + ['s-seek']:
             for perpack in (True, False):
                 if not thorough and (len(jobs) % 3):  # a third of the configurations in the quick tier
                     jobs.append(None)
@@ -191,13 +250,14 @@ def check(report: common.Report, per_config=None):
                 jobs.append((wname, rname, perpack, per_config, common.seed()))
     jobs = [j for j in jobs if j]
     results = common.pmap(group_job, jobs, procs=12)
-    total = drifting = states = 0
+    total = drifting = states = retries = 0
     for result in results:
         if result['bad']:
             print('MACHINERY-FAILURE: DosConf run failed for', result['config'])
             print(result['tail'])
             raise SystemExit(2)
         total += result['traces']
+        retries += result.get('seek_retries', 0)
         states += result['states']
         drifting += len(result['stuck'])
         for item in result['stuck'][:2]:
@@ -206,5 +266,5 @@ def check(report: common.Report, per_config=None):
             report.note(f"model drift: Dos cannot follow {result['config']} at {item['line']}")
     report.add('states', states)
     report.set('step_conformance', {'executions': total, 'conforming': total - drifting, 'drifting': drifting,
-                                    'configurations': len(jobs)})
+                                    'configurations': len(jobs), 'seeker_open_retries_observed': retries})
     return drifting
